@@ -8,7 +8,12 @@ legs: MC   TLC runs the statement machine of Statements.tla (rewrite into the te
            StatementsSession.tla is the grain above: connections with their registered table objects and SESSIONS
            (sequences of statements, each deriving its table by update() = shallow copy and scanning prepare());
            invariant: every statement is evaluated on (ledger of its connection, its OWN clauses) whatever ran
-           before.  Three mechanisms that keep state across statements must be rejected.
+           before.  Three mechanisms that keep state across statements must be rejected.  A step also carries its
+           ROUTE -- typed (Connection.execute / the shell prompt) or stored in the ledger by a query directive and
+           submitted with the shell's `.run <name>`, where BQLShell.parse(text, default_close_date) sits between the
+           text and the compiler: PRINT is evaluated on its own clauses on every route (a stored BALANCES / JOURNAL
+           without CLOSE may be closed at the date of its query directive: the statement is silent about that shell
+           feature, both admitted).  A shell that applies the default closing date to PRINT too must be rejected.
       S2C  TLC prints, per statement shape, the SHORT statement and the EXPANDED SELECT as token sequences and, per
            (ledger, shape), the rows the specification requires.  The driver builds the ledger, executes both texts
            through Connection.execute, requires identical rows and descriptions and equality with the spec's rows.
@@ -16,16 +21,22 @@ legs: MC   TLC runs the statement machine of Statements.tla (rewrite into the te
            an abstract form and compared, directive by directive, with the entries the spec says must be kept.
            Sessions: TLC emits every session of 2 (thorough: 3) statements over kinds x {no FROM, FROM expression,
            each clause, all clauses}; the driver runs each on ONE shell / connection and requires, per statement,
-           what the same statement returns on a connection that executed nothing else.
+           what the same statement returns on a connection that executed nothing else.  Every step is emitted typed
+           AND stored: a stored statement lives in a ledger FILE the shell loads itself, is submitted as `.run <name>`
+           and must write what one of the statement texts the spec admits writes when typed at the prompt of a shell
+           that loaded the same file and executed nothing else.
       C2S  the Beancount example ledger and random ledgers: every shape of the big table (filters x OPEN / CLOSE / CLEAR
            subsets x summary functions x account patterns) is run short vs expanded (rows + description equal) and the
            observed rows are logged next to the summarised posting / directive table; TLC (Trace_Statements) judges
            every line with the operators of the specification.  All statements of a ledger run on ONE shell /
            connection (groups in seeded random order, then a stratified random session with repeated statements);
            every summarised table the lines are judged against is obtained on a connection of its own that executes
-           nothing else, so a result that depends on the history of the connection is rejected by TLC.
+           nothing else, so a result that depends on the history of the connection is rejected by TLC.  On some
+           ledgers a further session runs on a shell that loads the ledger from a file in which every PRINT statement
+           is stored by a query directive: each is submitted as `.run <name>` and judged by TLC like a typed one.
 """
 import collections
+import copy
 import datetime
 import decimal
 import io
@@ -60,6 +71,7 @@ class OutOfDomain(Exception):
 
 _PARSED = {}
 _ORIG_PARSE = None
+_COPY_PARSED = [False]
 
 
 def install_parse_memo():
@@ -77,7 +89,9 @@ def install_parse_memo():
             r = _PARSED.get(text)
             if r is None:
                 r = _PARSED[text] = _ORIG_PARSE(text)
-            return r
+            # BQLShell.parse() writes the default closing date of `.run` into the AST it is handed: where stored
+            # statements are run the memo hands out copies (the real parser returns a new AST at every call)
+            return copy.deepcopy(r) if _COPY_PARSED[0] else r
         bqp.parse = cached_parse
 
 
@@ -117,6 +131,17 @@ def preparse(texts, procs=8):
         for pairs in ex.map(_parse_worker, todo, chunksize=3):
             for k, v in pairs:
                 _PARSED.setdefault(k, v)
+
+
+class copying_memo:
+    """inside: the parse memo returns a private copy of the AST at every call"""
+
+    def __enter__(self):
+        self.saved = _COPY_PARSED[0]
+        _COPY_PARSED[0] = True
+
+    def __exit__(self, *a):
+        _COPY_PARSED[0] = self.saved
 
 
 class unpatched_parser:
@@ -441,10 +466,12 @@ def proj_entry(e):
 class PrintShell:
     """BQLShell in batch mode writing to a StringIO, as beanquery/shell_test.py drives it"""
 
-    def __init__(self):
+    def __init__(self, filename=None):
+        """filename: the ledger file the shell loads itself (as `bean-query <filename>` does; its `query` directives
+        become the named queries of `.run`); None: the ledger is attached afterwards with attach()"""
         from beanquery import shell
         self.out = io.StringIO()
-        self.sh = shell.BQLShell(None, self.out)
+        self.sh = shell.BQLShell(filename, self.out, no_errors=True)
 
     def attach(self, entries, options=None):
         opts = options or default_options()
@@ -482,12 +509,15 @@ def match_kept(printed, originals):
     return kept
 
 
-def print_case(ctx, psh, entries, projs, shape, key, case, leg):
-    """run PRINT through the shell; returns the kept indices (or None after reporting a violation)"""
+def print_case(ctx, psh, entries, projs, shape, key, case, leg, command=None):
+    """run PRINT through the shell (typed at the prompt, or the command line `command` that submits it); returns the
+    kept indices (or None after reporting a violation)"""
     text = text_of(shape['short'])
     case = dict(case, statement=text)
+    if command is not None:
+        case['submitted_as'] = command
     try:
-        out = psh.run(text)
+        out = psh.run(command or text)
     except Exception as ex:  # noqa
         ctx.violation('%s:raises:%s' % (key, type(ex).__name__), 'PRINT raises', case, leg, 'output', str(ex)[:200])
         return None
@@ -729,10 +759,31 @@ class Session:
     """one BQLShell = one connection (shell.context) for a whole sequence of statements: PRINT goes through the shell's
     dispatcher, BALANCES / JOURNAL / SELECT through execute() of the same connection"""
 
-    def __init__(self, entries, options=None):
-        self.psh = PrintShell()
-        self.psh.attach(entries, options)
+    def __init__(self, entries, options=None, filename=None):
+        self.psh = PrintShell(filename)
+        if filename is None:
+            self.psh.attach(entries, options)
         self.conn = self.psh.sh.context
+
+
+def stored_ledger(path, entries, stored, qdate):
+    """the ledger with the statements `stored` (name -> text) kept in it by `query` directives dated qdate, written to
+    `path` and loaded back the way the shell loads it: returns (entries, options, filename)"""
+    from beancount import loader
+    from beancount.core import data
+    from beancount.parser import printer
+    qs = []
+    for n, (name, text) in enumerate(sorted(stored.items())):
+        if '"' in text or '\\' in text or '"' in name:
+            raise MachineryError('statement not storable in a query directive: %r' % text)
+        qs.append(data.Query({'filename': '<stored>', 'lineno': 100000 + n}, qdate, name, text))
+    with open(path, 'w') as f:
+        printer.print_entries(list(entries) + qs, file=f)
+    loaded, errors, options = loader.load_file(path)
+    names = {e.name: e.query_string for e in loaded if isinstance(e, data.Query) and e.meta.get('filename') == path}
+    if any(names.get(k) != v for k, v in stored.items()):
+        raise MachineryError('stored statements did not survive the ledger file %s' % path)
+    return loaded, options, path
 
 
 def group_key(s):
@@ -814,10 +865,24 @@ def session_order(rng, shapes, picks, k):
     return order
 
 
-def record_session(ctx, rec, name, oracle, shapes, order, tag):
+def stored_big_ledger(ctx, big, entries, name):
+    """the ledger `name` with every PRINT statement of the big table stored in it by a query directive (dated in the
+    middle of the ledger), as a file: (loaded entries, options, filename, {shape index: query name})"""
+    names = {i: 'q%d' % (i + 1) for i in range(len(big)) if big[i]['kind'] == 'print'}
+    dates = sorted(e.date for e in entries)
+    loaded, options, path = stored_ledger(ctx.path('c14_stored_%s.beancount' % name), entries,
+                                          {nm: text_of(big[i]['short']) for i, nm in names.items()}, dates[len(dates) // 2])
+    return loaded, options, path, names
+
+
+def record_session(ctx, rec, name, oracle, shapes, order, tag, filename=None, run_names=None):
     """run the statements `order` (indices into shapes) one after the other on ONE shell / connection attached to the
-    ledger: short vs expansion in Python, observed rows into the trace, next to the summarised table of the oracle"""
-    sess = Session(oracle.entries, oracle.options)
+    ledger: short vs expansion in Python, observed rows into the trace, next to the summarised table of the oracle.
+    filename / run_names: the shell loads the ledger file itself and the statements whose index is in run_names are
+    submitted as `.run <name>` (they are stored in the file by query directives); the trace line does not say how a
+    statement was submitted -- what it returns is a function of (ledger, statement)"""
+    sess = Session(oracle.entries, oracle.options, filename)
+    run_names = run_names or {}
     current = {'dirs': None, 'posts': None}
     nrun = 0
     for n, si in enumerate(order):
@@ -835,7 +900,11 @@ def record_session(ctx, rec, name, oracle, shapes, order, tag):
             if current['dirs'] != key:
                 rec.write({'k': 'dirs', 'dirs': o['dirs']})
                 current['dirs'] = key
-            kept = print_case(ctx, sess.psh, o['summarised'], o['projs'], s, 'print' + (':clauses' if s['clauses'] else ''), case, 'C2S')
+            command = ('.run ' + run_names[si]) if si in run_names else None
+            if command:
+                info['submitted_as'] = command
+            kept = print_case(ctx, sess.psh, o['summarised'], o['projs'], s, 'print' + (':clauses' if s['clauses'] else ''), case, 'C2S',
+                              command)
             nrun += 1
             if kept is None:
                 continue
@@ -976,6 +1045,10 @@ def session_tables(ctx, cfg='Gen_StatementsSession.cfg'):
     sessions = [p for p in res.printed if isinstance(p, dict) and p.get('k') == 'session']
     if len(shapes) != 1 or not sessions:
         raise MachineryError('session generator: %d shape tables, %d sessions' % (len(shapes), len(sessions)))
+    # route "run": the name and the date of the query directive that stores the statement in the ledger
+    head = [p for p in res.printed if isinstance(p, dict) and p.get('k') == 'shapes'][0]
+    for sh, name in zip(shapes[0], head['names']):
+        sh['name'], sh['qdate'] = name, head['qdate']
     return shapes[0], sessions
 
 
@@ -997,38 +1070,87 @@ def show_result(r):
     return [str(x)[:200] for x in r[1][:8]]
 
 
+def run_result(sess, command):
+    """what the shell writes for one command line (a statement typed at the prompt, or `.run <name>`)"""
+    try:
+        return ['text', sess.psh.run(command)]
+    except Exception as ex:  # noqa
+        return ['EXC:%s' % type(ex).__name__, str(ex)[:200]]
+
+
 def replay_sessions(ctx, tables, sshapes, sessions, what, leg='S2C'):
+    with copying_memo():
+        return _replay_sessions(ctx, tables, sshapes, sessions, what, leg)
+
+
+def _replay_sessions(ctx, tables, sshapes, sessions, what, leg):
     """every statement of a session, executed on the one shell / connection of its connection index, must return what
     the same statement returns on a connection that has executed nothing else (the driver's realisation of
-    `evaluated on the version (ledger, own clauses)`)"""
+    `evaluated on the version (ledger, own clauses)`).
+
+    Routes: a step on route "run" is submitted as `.run <name>` -- the statement is stored in the ledger by a query
+    directive, the shell loads the ledger FILE itself -- and what the shell writes must be what it writes for one of
+    the statement texts the specification admits (for PRINT: its own text and nothing else), typed at the prompt of a
+    shell that loaded the same file and executed nothing else.  Sessions without such a step run on a shell with the
+    ledger attached, as before."""
     ledgers, fresh = {}, {}
 
-    def ledger(c):
-        if c not in ledgers:
-            ledgers[c] = named_ledger(ctx, tables, SESSION_LEDGERS[c])[:2]
-        return ledgers[c]
+    def ledger(c, stored=False):
+        if (c, False) not in ledgers:
+            ledgers[c, False] = named_ledger(ctx, tables, SESSION_LEDGERS[c])[:2]
+        if stored and (c, True) not in ledgers:
+            date = datetime.date(*map(int, sshapes[0]['qdate'].split('-')))
+            ledgers[c, True] = stored_ledger(ctx.path('c14_stored_%d_%d.beancount' % (os.getpid(), c)), ledgers[c, False][0],
+                                             {sh['name']: text_of(sh['short']) for sh in sshapes}, date)
+        return ledgers[c, stored]
 
-    def fresh_result(c, n):
-        if (c, n) not in fresh:
-            fresh[c, n] = session_result(Session(*ledger(c)), sshapes[n - 1])
-        return fresh[c, n]
-    nsess = nstmt = 0
+    def fresh_result(c, n, stored):
+        if (c, n, stored) not in fresh:
+            fresh[c, n, stored] = session_result(Session(*ledger(c, stored)), sshapes[n - 1])
+        return fresh[c, n, stored]
+
+    def fresh_text(c, text):
+        if (c, text) not in fresh:
+            fresh[c, text] = run_result(Session(*ledger(c, True)), text)
+        return fresh[c, text]
+    nsess = nstmt = nrun = 0
     t0 = time.time()
     for se in sessions:
         conns = {}
-        texts = [text_of(sshapes[st['s'] - 1]['short']) for st in se['steps']]
+        texts = [('.run %s    [%s]' % (sshapes[st['s'] - 1]['name'], text_of(sshapes[st['s'] - 1]['short']))) if st.get('r') == 'run'
+                 else text_of(sshapes[st['s'] - 1]['short']) for st in se['steps']]
+        stored = any(st.get('r') == 'run' for st in se['steps'])
         for k, st in enumerate(se['steps']):
-            c, n = st['c'], st['s']
+            c, n, route = st['c'], st['s'], st.get('r', 'typed')
             shape = sshapes[n - 1]
-            if se['want'][k] != {'ledger': c, 'cl': shape['own']}:
+            admitted = se['want'][k]
+            if (not admitted or any(w['ledger'] != c for w in admitted) or admitted[0]['cl'] != shape['own']
+                    or admitted[0]['stmt'] != shape['short'] or (route != 'run' and len(admitted) != 1)):
                 raise MachineryError('session %s: the specification wants step %d on %s -- not a version the driver can '
-                                     'realise' % (se['steps'], k + 1, se['want'][k]))
+                                     'realise' % (se['steps'], k + 1, admitted))
             if c not in conns:
-                conns[c] = Session(*ledger(c))
-            got = session_result(conns[c], shape)
-            want = fresh_result(c, n)
+                conns[c] = Session(*ledger(c, stored))
             nstmt += 1
-            ctx.case(['session', [[x['c'], x['s']] for x in se['steps'][:k + 1]]], k > 0 and shape['clauses'])
+            ctx.case(['session', [[x['c'], x['s'], x.get('r', 'typed')] for x in se['steps'][:k + 1]]],
+                     (k > 0 and shape['clauses']) or route == 'run')
+            if route == 'run':
+                nrun += 1
+                got = run_result(conns[c], '.run ' + shape['name'])
+                wants = [fresh_text(c, text_of(w['stmt'])) for w in admitted]
+                if wants[0][0].startswith('EXC'):
+                    ctx.skipped += 1
+                    continue
+                if got not in wants:
+                    ctx.violation('session:%s%s:route-run' % (shape['kind'], ':clauses' if shape['clauses'] else ''),
+                                  'a statement stored in the ledger and submitted with .run writes something else than '
+                                  'the statement (with the clauses the specification admits) typed at the prompt of a '
+                                  'shell that executed nothing else',
+                                  {'session': se, 'step': k + 1, 'statements': texts, 'admitted': [text_of(w['stmt']) for w in admitted],
+                                   'ledgers': {str(c_): SESSION_LEDGERS[c_] for c_ in conns}}, leg,
+                                  [w[1][:600] for w in wants], show_result(['print', got[1]]) if got[0] == 'text' else got)
+                continue
+            got = session_result(conns[c], shape)
+            want = fresh_result(c, n, stored)
             if isinstance(want[0], str) and want[0].startswith('EXC'):
                 ctx.skipped += 1
                 continue
@@ -1041,11 +1163,12 @@ def replay_sessions(ctx, tables, sshapes, sessions, what, leg='S2C'):
                               show_result(want), show_result(got))
         ctx.traces += 1
         nsess += 1
-        if nsess == 200:
+        if nsess in (200, 1000):
             ctx.sample({'leg': leg, 'session': texts, 'connections': [st['c'] for st in se['steps']]})
-    ctx.leg(leg, **{what: nsess, what + '_statements': nstmt})
+    ctx.leg(leg, **{what: nsess, what + '_statements': nstmt, what + '_statements_submitted_with_run': nrun})
     if hasattr(ctx, 'log'):
-        ctx.log('%s: %d sessions (%d statements) replayed in %.1fs' % (leg, nsess, nstmt, time.time() - t0))
+        ctx.log('%s: %d sessions (%d statements, %d of them stored and submitted with .run) replayed in %.1fs'
+                % (leg, nsess, nstmt, nrun, time.time() - t0))
     return nsess
 
 
@@ -1073,8 +1196,11 @@ def direct_cases(ctx, tables):
     ctx.leg('S2C', executed_with_original_parser=n)
 
 
-def run_session_mc(ctx):
-    res = ctx.tlc('StatementsSession', ctx.pick('MC_StatementsSession.cfg', 'MC_StatementsSession4.cfg'), leg='MC',
+def run_session_mc(ctx, routes=False):
+    """routes=False: two connections, every statement typed; routes=True: one connection, every statement typed or
+    stored in the ledger and submitted with .run"""
+    cfgs = ('MC_StatementsSessionR.cfg', 'MC_StatementsSessionR4.cfg') if routes else ('MC_StatementsSession.cfg', 'MC_StatementsSession4.cfg')
+    res = ctx.tlc('StatementsSession', ctx.pick(*cfgs), leg='MC',
                   jvm=JVM, timeout=ctx.pick(600, 3000), workers=ctx.pick(2, 8),
                   must_cover=ctx.pick(('SCompile', 'SExecute'), ()))
     if res.violated:
@@ -1088,7 +1214,7 @@ def run(ctx):
                 'not all directives); C2S: (ledger, shape of the big table) pairs on the example ledger and on random '
                 'ledgers, judged by TLC against the summarised posting / directive table; sessions: one statement of a '
                 'TLC-emitted / random sequence executed on one connection, non-trivial when it has OPEN / CLOSE / CLEAR '
-                'and is not the first')
+                'and is not the first, or when it is submitted as a stored query (.run)')
     ctx.assumptions += [
         'account patterns are literal or ^prefix patterns over [-0-9:A-Za-z_]; the case-insensitive search of the code is modelled',
         'numbers are integers in minor units (< 2^31) per currency; other cases are skipped and counted',
@@ -1097,6 +1223,11 @@ def run(ctx):
         'connection of its own that executes nothing else): C13 judges it',
         'a result is a function of (ledger, statement): the statements of a ledger share one shell / connection and what '
         'ran before must not matter (StatementsSession.tla); S2C sessions compare with a connection that executed nothing else',
+        'what a statement returns does not depend on how it is submitted (typed, or stored in the ledger by a query '
+        'directive and run with the shell command .run); the one admitted exception is the default closing date (= date of '
+        'the query directive) the shell gives a stored BALANCES / JOURNAL whose FROM clause has no CLOSE -- never a PRINT',
+        'stored-query sessions run on ledgers written with beancount.parser.printer and loaded back by the shell '
+        '(beancount.loader): the loaded directives are the ledger on both sides of every comparison',
         'MAXWIDTH is the identity on strings that fit and have no blank runs; longer ones only have their length checked',
         'beanquery.parser.parse is memoised by text inside the replay loops (TatSu: 30-100 ms per statement, the templates '
         'are re-parsed on every execution); a sample runs with the original parser',
@@ -1110,16 +1241,18 @@ def run(ctx):
     if want('MC'):
         import concurrent.futures as cf
         # the four non-vacuity runs (small, they stop at the first counterexample) run next to the exhaustive one
-        with cf.ThreadPoolExecutor(9) as pool:
+        with cf.ThreadPoolExecutor(11) as pool:
             futs = [pool.submit(ctx.tlc, 'MC_Statements', 'MC_Statements_%s.cfg' % v, leg='MC-nonvacuity',
                                 expect_violation='DenoteIsMeaning', workers=2, jvm=JVM)
                     for v in ('no_where', 'order_by_name', 'balance_raw', 'print_keeps_null')]
             # sessions: results do not depend on what a connection (or another one) executed before; mechanisms that
-            # keep state across statements on the table object / the registered object / the class are rejected
+            # keep state across statements on the table object / the registered object / the class are rejected, and so
+            # is a shell that applies the default closing date of `.run` to a stored PRINT
             futs += [pool.submit(ctx.tlc, 'StatementsSession', 'MC_StatementsSession_%s.cfg' % v, leg='MC-nonvacuity',
                                  expect_violation='Independent', workers=2, jvm=JVM)
-                     for v in ('memo_on_object', 'update_in_place', 'memo_on_class')]
+                     for v in ('memo_on_object', 'update_in_place', 'memo_on_class', 'run_closes_any')]
             futs.append(pool.submit(run_session_mc, ctx))
+            futs.append(pool.submit(run_session_mc, ctx, True))
             for cfg in ctx.pick(('MC_Statements.cfg',), ('MC_Statements4.cfg', 'MC_Statements4b.cfg')):
                 res = ctx.tlc('MC_Statements', cfg, leg='MC', jvm=JVM, timeout=ctx.pick(900, 3000), workers=ctx.pick(12, 16),
                               must_cover=('Rewrite', 'CompilePrint', 'Scan', 'Finalize', 'Order', 'Strip', 'PrintScan', 'PrintEmit'))
@@ -1177,7 +1310,8 @@ def run(ctx):
                 subset = allidx
             preparse([text_of(big[i][k]) for i in subset for k in ('short', 'expanded')])
             names = ['pool'] + ['random-%d' % k for k in range(ctx.pick(4, 40))] + ['example']
-            nsession = 0
+            nsession = nstored = 0
+            stored_names = names[:ctx.pick(3, 12)]
             for name in names:
                 entries, options, nerr = named_ledger(ctx, tables, name)
                 picks = subset if (ctx.quick or not name.startswith('random')) else sorted(rng.sample(allidx, 200))
@@ -1190,6 +1324,16 @@ def run(ctx):
                     n = record_session(ctx, rec, name, oracle, big, session_order(rng, big, subset, ctx.pick(3, 5)), 'session')
                     nrun += n
                     nsession += n
+                if name in stored_names:
+                    # ... and, on a shell that loads the ledger from a file, every PRINT submitted as a stored query
+                    # (`.run <name>`), some typed BALANCES / JOURNAL in between
+                    loaded, lopts, lpath, run_names = stored_big_ledger(ctx, big, entries, name)
+                    others = [i for i in subset if big[i]['kind'] != 'print']
+                    order = grouped_order(rng, big, [i for i in subset if big[i]['kind'] == 'print'] + rng.sample(others, 6))
+                    with copying_memo():
+                        n = record_session(ctx, rec, name, Oracle(loaded, lopts), big, order, 'stored', lpath, run_names)
+                    nrun += n
+                    nstored += n
                 if name == 'example' and not nerr:
                     psh.attach(entries, options)
                     unfiltered_print_roundtrip(ctx, psh, entries, 'example')
@@ -1197,8 +1341,9 @@ def run(ctx):
             with open(path) as f:
                 first = [json.loads(x) for x in itertools.islice(f, 2)]
             ctx.sample({'leg': 'C2S', 'first_lines': [str(x)[:600] for x in first]})
-            ctx.leg('C2S', statements_run=nrun, of_which_in_random_sessions=nsession)
-            ctx.log('C2S: %d statements recorded (%d of them in random sessions), %d trace lines' % (nrun, nsession, rec.lines))
+            ctx.leg('C2S', statements_run=nrun, of_which_in_random_sessions=nsession, of_which_in_sessions_with_stored_print=nstored)
+            ctx.log('C2S: %d statements recorded (%d of them in random sessions, %d in sessions whose PRINT statements are stored '
+                    'queries submitted with .run), %d trace lines' % (nrun, nsession, nstored, rec.lines))
             validate_trace(ctx, rec, path)
     finally:
         uninstall_parse_memo()
@@ -1243,7 +1388,12 @@ def replay(ctx, rep):
             before = len(ctx.violations) + sum(v['n'] for v in ctx.known_hits.values())
             # what the connection had executed before, then the statement
             order = [i - 1 for i in case.get('history', [])] + [case['shape'] - 1]
-            record_session(ctx, rec, case['ledger'], Oracle(entries, options), big, order, case.get('pass', 'groups'))
+            if case.get('pass') == 'stored':
+                loaded, lopts, lpath, run_names = stored_big_ledger(ctx, big, entries, case['ledger'])
+                with copying_memo():
+                    record_session(ctx, rec, case['ledger'], Oracle(loaded, lopts), big, order, 'stored', lpath, run_names)
+            else:
+                record_session(ctx, rec, case['ledger'], Oracle(entries, options), big, order, case.get('pass', 'groups'))
             rec.close()
             if rec.lines:
                 validate_trace(ctx, rec, path)
